@@ -39,9 +39,14 @@ trait SliceBuf {
     fn get_u64(&mut self) -> (r: u64)
         requires old(self).rest().len() >= 8
         ensures r == be_u64(old(self).rest().subrange(0, 8)), final(self).rest() == old(self).rest().subrange(8, old(self).rest().len() as int);
+    fn get_u8(&mut self) -> (r: u8)
+        requires old(self).rest().len() >= 1
+        ensures r == old(self).rest()[0], final(self).rest() == old(self).rest().subrange(1, old(self).rest().len() as int);
 }
 impl<'a> SliceBuf for &'a [u8] {
     spec fn rest(&self) -> Seq<u8> { (*self)@ }
     #[verifier::external_body]
     fn get_u64(&mut self) -> (r: u64) { unimplemented!() }
+    #[verifier::external_body]
+    fn get_u8(&mut self) -> (r: u8) { unimplemented!() }
 }
